@@ -245,5 +245,5 @@ def subs(tier: str):
         Sub("exhaustive<=3x3", check, "exhaustive", cases=_exhaustive_cases, exhaustive_flag=True),
         Sub("forks-exhaustive<=3x3", check, "exhaustive", cases=_exhaustive_fork_cases, exhaustive_flag=True),
         *([] if q else [Sub("exhaustive-2x4-2x5-1xN", check, "exhaustive", cases=_exhaustive_medium, exhaustive_flag=True)]),
-        Sub("random", check, "hypothesis", strategy=lambda: _random_case(15 if q else 25), examples=40 if q else 600),
+        Sub("random", check, "hypothesis", strategy=lambda: _random_case(15 if q else 25), examples=40 if q else 2000),
     ]
